@@ -540,6 +540,18 @@ func genBits(mode string, n int, seed int64) []bool {
 				b[i+k] = v&(0x80>>uint(k)) != 0
 			}
 		}
+	case "lateburst": // Maurer: the initialisation segment (1280 blocks) holds a single 7-bit value; the 127 others all occur
+		// for the first time within one window right after it (distance = block index, about 10.3 bits each), then zeros again
+		for q := 0; q+7 <= n; q += 7 {
+			blk := q / 7
+			v := 0
+			if blk >= 1280 && blk < 1280+127 {
+				v = blk - 1280 + 1
+			}
+			for k := 0; k < 7; k++ {
+				b[q+k] = v&(0x40>>uint(k)) != 0
+			}
+		}
 	case "gaps", "gapslong": // uniform 7-bit blocks with planted recurrence distances: for each d in the list some block value occurs at
 		// block p and at block p-d and nowhere in between (powers of two and their neighbours, and a few long gaps)
 		for i := range b {
